@@ -617,8 +617,14 @@ def execute(P, F, acc, pos, kw, body, ctxmode='full'):
 
     def one(mod, hook):
         target, inst = P.target(mod, acc)
-        pos_objs = [K.build_val(t) for t in pos]
-        kw_objs = {K.name_of(k): K.build_val(t) for k, t in kw}
+        K.INST_FACTORY.clear()
+        if inst is not None:
+            K.INST_FACTORY[K.Recv] = lambda: inst          # the receiver itself, passed again as an argument (`node.link(node)`)
+        try:
+            pos_objs = [K.build_val(t) for t in pos]
+            kw_objs = {K.name_of(k): K.build_val(t) for k, t in kw}
+        finally:
+            K.INST_FACTORY.clear()
         if body[0] == 'raises':
             script = ('raises', make_exc(body[1]))
         elif body[0] == 'retzoo':
@@ -682,6 +688,11 @@ def build_cases(rng, n_callables, calls_per=4, profile='mixed', style=None, tag=
                     pos, kw = gen_call(rng, F, desc, 'posall' if isprop else style, bad_range=3 if isprop else 8)   # attribute access: Python passes positionally
                     if isprop:
                         kw = []           # attribute access has no keywords
+                    if acc[0] == 'inst' and F['kind'] != 'dunder_class' and (pos or kw) and rng.random() < 0.07:   # (dunder classes redefine __str__ / __repr__ / __eq__ with other signatures: such an object cannot be formatted into a message)
+                        # one argument is the very object the method is called on
+                        j = rng.randrange(len(pos) + len(kw))
+                        if j < len(pos): pos = pos[:j] + [["inst", K.IDX[K.Recv]]] + pos[j + 1:]
+                        else: kw = kw[:j - len(pos)] + [[kw[j - len(pos)][0], ["inst", K.IDX[K.Recv]]]] + kw[j - len(pos) + 1:]
                     body = gen_body(rng, desc)
                     ctxmode = 'full' if rng.random() < 0.85 else 'bare'        # which module the call is made from
                     impl = execute(P, F, acc, pos, kw, body, ctxmode)
